@@ -291,6 +291,33 @@ Theorem C20_infidelity_convergence_test : forall p w ids s ok_kind olen otag sm 
 Proof. exact infidelity_convergence_test. Qed.
 Print Assumptions C20_extend_additional_entry.
 
+(* ---------------------------------------------------------------- caches, basis sizes, propagator times *)
+Theorem C20_cache_control_matrix : forall n_nops n_basis n_omega,
+  validate_cache_control_matrix None n_nops n_basis n_omega = ok /\
+  (forall g, validate_cache_control_matrix (Some [n_nops; n_basis; n_omega]) n_nops n_basis n_omega = ok /\
+             validate_cache_control_matrix (Some [g; n_nops; n_basis; n_omega]) n_nops n_basis n_omega = ok) /\
+  (forall a b c, (a, b, c) <> (n_nops, n_basis, n_omega) ->
+     validate_cache_control_matrix (Some [a; b; c]) n_nops n_basis n_omega = Raise ValueError /\
+     forall g, validate_cache_control_matrix (Some [g; a; b; c]) n_nops n_basis n_omega = Raise ValueError) /\
+  (forall s, length s <> 3 -> length s <> 4 -> validate_cache_control_matrix (Some s) n_nops n_basis n_omega = Raise ValueError).
+Proof. exact cache_control_matrix_spec. Qed.
+Theorem C20_cache_filter_function : forall which order n b o, In which ["fidelity"; "generalized"]%string -> order = 1 \/ order = 2 ->
+  let expected := if (order =? 1) && String.eqb which "fidelity" then [n; n; o] else [n; n; b; b; o] in
+  validate_cache_filter_function None which order n b o = ok /\
+  validate_cache_filter_function (Some expected) which order n b o = ok /\
+  (forall s, s <> expected -> validate_cache_filter_function (Some s) which order n b o = Raise ValueError).
+Proof. exact cache_filter_function_spec. Qed.
+Theorem C20_cache_total_phases : forall n_omega,
+  validate_cache_total_phases None n_omega = ok /\ validate_cache_total_phases (Some [n_omega]) n_omega = ok /\
+  (forall m, m <> n_omega -> validate_cache_total_phases (Some [m]) n_omega = Raise ValueError) /\
+  (forall s, length s <> 1 -> validate_cache_total_phases (Some s) n_omega = Raise ValueError).
+Proof. exact cache_total_phases_spec. Qed.
+Theorem C20_basis_size : forall n, ((1 <= n)%Z -> validate_basis_size n = ok) /\ ((n < 1)%Z -> validate_basis_size n = Raise ValueError).
+Proof. exact basis_size_spec. Qed.
+Theorem C20_propagator_times : forall l, (Forall (fun b => b = false) l -> validate_propagator_times l = ok) /\
+  (forall i, i < length l -> validate_propagator_times (upd l i true) = Raise ValueError).
+Proof. exact propagator_times_spec. Qed.
+
 (* ---------------------------------------------------------------- complete: Basis, dims arguments *)
 Theorem C20_basis_complete : forall d os labels, os <> [] -> Forall (good_oper d) os ->
   (d * d < length os -> validate_basis_new (Build_basis_new_d (GOpers os) labels) = Raise ValueError) /\
